@@ -416,6 +416,16 @@ class Interp:
         if isinstance(a, sc) and isinstance(b, sc):
             x, y = to_pyval(a), to_pyval(b)
             un = binop(OP[name], x, y)
+            if name in ('add', 'sub', 'mul', 'truediv', 'floordiv', 'mod'):
+                # kind closure of real arithmetic, by construction of the term (true for finite and
+                # non-finite floats alike): float with float / int / bool gives a float; int / int
+                # true division gives a float.  The float payload stays uninterpreted.
+                from .model import Fl
+                fl_res = z3.Function('fl_result', z3.IntSort(), PyVal, PyVal, Fl)
+                realx = z3.Or(PyVal.is_PF(x), int_like(x))
+                realy = z3.Or(PyVal.is_PF(y), int_like(y))
+                isf = z3.Or(PyVal.is_PF(x), PyVal.is_PF(y)) if name != 'truediv' else z3.BoolVal(True)
+                un = z3.If(z3.And(realx, realy, isf), PyVal.PF(fl_res(z3.IntVal(OP[name]), x, y)), un)
             both = z3.And(int_like(x), int_like(y))
             ix, iy = int_of(x), int_of(y)
             if name in ('add', 'sub', 'mul'):
